@@ -164,19 +164,24 @@ func ownerOfPort(port string) string {
 	if !strings.HasPrefix(port, pre) {
 		return "?"
 	}
-	n := NameOfBech32(strings.TrimPrefix(port, pre))
-	if strings.HasPrefix(n, "invalid:") {
-		return "?"
+	// the owner is the exact string after the prefix (port ids are case-sensitive)
+	rest := strings.TrimPrefix(port, pre)
+	for _, n := range intertxOwners {
+		if AddrStr(n) == rest {
+			return n
+		}
 	}
-	return n
+	return "?"
 }
+
+var intertxOwners = []string{"a1", "a2", "a3", "a4", "A1", "A2", "A3"}
 
 func (a *App) ProjectIntertx(ctx sdk.Context) *IntertxState {
 	e := a.itx
 	s := &IntertxState{Chans: []map[string]any{}, Caps: []map[string]any{}, Sent: []map[string]any{}, Regs: []map[string]any{}}
 	s.Now, _ = TimeTick(ctx.BlockTime())
 	for _, conn := range []string{"connection-0", "connection-1", "connection-2"} {
-		for _, o := range []string{"a1", "a2", "a3", "a4"} {
+		for _, o := range intertxOwners {
 			port := portOf(o)
 			if _, ok := e.ica.active[conn+"|"+port]; ok {
 				s.Chans = append(s.Chans, map[string]any{"owner": o, "conn": conn})
@@ -200,7 +205,13 @@ func (a *App) ProjectIntertx(ctx sdk.Context) *IntertxState {
 			"dsec": d / 1e9, "dns": d % 1e9})
 	}
 	for _, r := range e.ica.regs {
-		s.Regs = append(s.Regs, map[string]any{"owner": NameOfBech32(r.Owner), "conn": r.Conn, "version": r.Version})
+		owner := "?"
+		for _, n := range intertxOwners {
+			if AddrStr(n) == r.Owner {
+				owner = n
+			}
+		}
+		s.Regs = append(s.Regs, map[string]any{"owner": owner, "conn": r.Conn, "version": r.Version})
 	}
 	return s
 }
